@@ -12,12 +12,12 @@ LEAN_FILE = 'PncProofs/C10.lean'
 NAMESPACE = 'Props.C10'
 LEAN_CONE = ['PncModel.Cal', 'PncModel.TimeDec', 'PncModel.Arr', 'PncModel.Ioapi', 'PncProofs.IoapiLemmas', 'PncProofs.C10']
 LEMMA_FILES = ['PncProofs/IoapiLemmas.lean']
-REQUIRED_THEOREMS = ['coherent_updatemeta', 'coherent_restack', 'coherent_create_then_updatemeta', 'create_variable_counterexample', 'copy_novars_counterexample', 'coherent_step', 'coherent_run', 'zero_listed_counterexample']
+REQUIRED_THEOREMS = ['coherent_updatemeta', 'coherent_restack', 'coherent_create_then_updatemeta', 'create_variable_counterexample', 'copy_novars_counterexample', 'coherent_setvg', 'coherent_step', 'coherent_run', 'zero_listed_counterexample']
 RULE = ('IOAPI files from five sources (variable names of 2 to 16 characters; from_arrays gridded/boundary, from_arrays plus an unlisted 2-D variable, '
         'saved to disk and reopened with the ioapi reader, GRIDDESC text gridded/boundary) x sequences of 1-4 '
         'operations (copy, sliceDimensions with int / unit and strided slice / index-list windows on 1-2 dimensions, subsetVariables, renameVariable, '
         'applyAlongDimensions with reducers and length-changing callables, eval incl. 17-character and existing '
-        'names and inplace, mask, stack along TSTEP/LAY with a file or a list of files, as a last step createVariable in place / copy(variables=False) (both leave a file for the caller to complete: recorded findings, mirrored by the model); a later part of the file stacked in front of an earlier part (the result starts where the receiver starts), interpSigma linear/conserve); after EVERY step the '
+        'names and inplace, mask, stack along TSTEP/LAY with a file or a list of files, the level edges assigned in place on an object that was reduced along LAY before, followed by a function along LAY on the same object; as a last step createVariable in place / copy(variables=False) (both leave a file for the caller to complete: recorded findings, mirrored by the model); a later part of the file stacked in front of an earlier part (the result starts where the receiver starts), interpSigma linear/conserve); after EVERY step the '
         'complete metadata state (NVARS, VAR-LIST, VAR, TFLAG width and rows, variables and their dimensions, '
         'NROWS/NCOLS/NLAYS, VGLVLS, SDATE/STIME/TSTEP, XORIG/YORIG/XCELL/YCELL, dimension lengths) is compared '
         'with the Lean model and the ten equalities of the property are evaluated on the real file (oracle); '
@@ -65,6 +65,10 @@ def gen(rng, tier):
         # time step is outside the domain): a later part stacked in front of an earlier part
         if rng.random() < 0.1:
             c['recipes'].append(['restack'] + [rng.randrange(1 << 20) for _ in range(6)])
+        elif rng.random() < 0.1:
+            # the level edges assigned in place on an object that was used before, then a function along LAY on that object
+            c['recipes'].append(['setvg'] + [rng.randrange(1 << 20) for _ in range(6)])
+            c['recipes'].append(['applylay'] + [rng.randrange(1 << 20) for _ in range(6)])
         elif rng.random() < 0.12:
             # a last step that leaves the file for its caller to complete: createVariable in place, a copy without variables
             c['recipes'].append([rng.choice(['create', 'copynv'])] + [rng.randrange(1 << 20) for _ in range(6)])
@@ -233,6 +237,20 @@ def resolve(recipe, f):
         return ['s', lo, hi]
     if k == 'copy':
         return ['copy', r[0] % 3 == 0]
+    if k == 'setvg':
+        nl = dims.get('LAY', 0)
+        if nl < 1:
+            return ['copy']
+        cur = [float(x) for x in np.atleast_1d(f.VGLVLS)]
+        inner = sorted({1 + (r[0] + 7 * j) % 62 for j in range(nl - 1)})
+        while len(inner) < nl - 1:
+            inner = sorted(set(inner) | {1 + (max(inner or [0]) + 1) % 62})
+        lv = [0] + inner + [64]
+        if cur[0] > cur[-1]:
+            lv = lv[::-1]
+        return ['setvg', ['%d/64' % x for x in lv]]
+    if k == 'applylay':
+        return ['apply', 'LAY', ['mean', 'min', 'max', 'sum', 'id', 'first2', 'rev', 'every2', 'ends'][r[1] % 9]]
     if k == 'create':
         return ['create', ['NEWC', 'N234567890123456'][r[0] % 2]]
     if k == 'copynv':
@@ -304,6 +322,14 @@ def apply_op(f, op):
     k = op[0]
     if k == 'copy':
         return f.copy(data=False) if (len(op) > 1 and op[1]) else f.copy()      # a structure-only copy keeps coherent metadata too
+    if k == 'setvg':
+        # the object has been used for a reduction along LAY before (whatever it may remember from that must not matter)
+        try:
+            f.applyAlongDimensions(LAY='mean')
+        except Exception:
+            pass
+        f.VGLVLS = np.array([float(Fraction(x)) for x in op[1]], dtype='f')
+        return f
     if k == 'create':
         std = ('TSTEP', 'LAY', 'PERIM') if 'PERIM' in f.dimensions else ('TSTEP', 'LAY', 'ROW', 'COL')
         v = f.createVariable(op[1], 'f', std)          # in place, standard dimensions of the file type
@@ -393,6 +419,8 @@ def tok(op):
         return 'eval@%s@%s@%d' % (op[1], op[2], 1 if op[3] else 0)
     if k == 'stack':
         return 'stack@' + op[1]
+    if k == 'setvg':
+        return 'setvg@' + ','.join(op[1])
     if k == 'create':
         return 'create@' + op[1]
     if k == 'restack':
